@@ -285,7 +285,11 @@ func (s *store) dispatchRequests() {
 			} else {
 				wdl.Printf("upgrade(local): upgrading '%s'", req.username)
 				verifEvent("exec.upgrade", req.username, 0, 0)
-				if resp := s.update(req.username, req.password); resp.err != nil {
+				// this request has been queued at login time: by now the password may have been
+				// changed or the user removed - never undo that by re-storing the old password.
+				if ok, _, upgradeable, _, _ := s.dir.Authenticate(req.username, req.password); !ok || !upgradeable {
+					wdl.Printf("upgrade(local): skipping outdated upgrade request for '%s'", req.username)
+				} else if resp := s.update(req.username, req.password); resp.err != nil {
 					wl.Printf("upgrade(local): failed for '%s': %v", req.username, resp.err)
 				} else {
 					wdl.Printf("upgrade(local): successfully upgraded '%s'", req.username)
